@@ -153,6 +153,14 @@ type c05Variant struct {
 }
 
 func runC05(c *Ctx) {
+	// file layout under the concurrent loader: sibling files which introduce the same new commodities at the same moment
+	// (stream `shared`, shared with C19: the include tree must balance byte for byte like the concatenated file)
+	if !c.Replay || c.OnlyStr == "shared" {
+		c.c19Shared()
+		if c.Replay {
+			return
+		}
+	}
 	n := c.N(150, 4000)
 	nvar := c.N(5, 10)
 	base := filepath.Join(c.WorkDir, "c05")
